@@ -215,8 +215,14 @@ func (s *Schema) SDL() string {
 			fmt.Fprintf(&b, "scalar %s\n", t.Name)
 		}
 	}
+	// a directive of the application's own that happens to have an argument called "if" (as @defer / @stream of the incremental
+	// delivery proposal have): it says nothing about inclusion
+	b.WriteString(TraceDirectiveSDL)
 	return b.String()
 }
+
+// TraceDirectiveSDL declares @trace, an executable directive with an "if" argument that is no inclusion condition.
+const TraceDirectiveSDL = "directive @trace(if: Boolean = true, label: String) on FIELD | FRAGMENT_SPREAD | INLINE_FRAGMENT\n"
 
 // ---------------------------------------------------------------- the universe schema
 
